@@ -184,6 +184,10 @@ class Runner:
         except OSError:
             err = ""
         sig = -rc if rc < 0 else 0
+        if status != "wall" and sig == signal.SIGKILL:
+            # nothing in the process raises SIGKILL: it was killed from outside (out-of-memory killer on a loaded machine, an
+            # operator) - like a wall-clock timeout this decides nothing: the caller re-runs once and then counts it as inconclusive
+            status = "wall"
         if status != "wall":
             if out["done"] and rc == 0:
                 status = "ok"
@@ -207,7 +211,9 @@ def crash_signature(res):
     if fclass is None:
         sig = res["sig"]
         why = crumb["why"]
-        if sig == signal.SIGXCPU or why == "SIGXCPU" or sig == signal.SIGKILL and res["status"] != "wall":
+        if res["status"] == "wall":
+            fclass = "wall-timeout"      # killed by the watchdog (or from outside): inconclusive, never a verdict
+        elif sig == signal.SIGXCPU or why == "SIGXCPU":
             fclass = "cpu-limit"
         elif sig == signal.SIGSEGV or why == "SIGSEGV":
             fclass = "segv"
